@@ -18,6 +18,7 @@ import (
 	"io/ioutil"
 	"os"
 	"strconv"
+	"strings"
 	"syscall"
 	"time"
 )
@@ -91,7 +92,7 @@ func runCrashChild(args []string) {
 		if err != nil {
 			fatal("project: %v", err)
 		}
-		writeLine(J{"k": 0, "op": "Reset", "a": sc.Ops[0], "r": res(nil, nil), "now": w.clock.now(), "st": st, "bad": ""})
+		writeLine(J{"k": 0, "op": "Reset", "a": sc.Ops[0], "r": res(nil, nil), "now": w.clock.now(), "st": st, "bad": "", "badamt": ""})
 		from = 1
 	} else {
 		if err := w.openStore(false); err != nil {
@@ -121,7 +122,8 @@ func runCrashChild(args []string) {
 			bad = tr.bad[0]
 			tr.bad = nil
 		}
-		writeLine(J{"k": k, "op": name, "a": op, "r": r, "now": w.clock.now(), "st": st, "bad": bad})
+		writeLine(J{"k": k, "op": name, "a": op, "r": r, "now": w.clock.now(), "st": st, "bad": bad, "badamt": strings.Join(tr.badamt, "; ")})
+		tr.badamt = nil
 		if k == selfkill {
 			syscall.Kill(os.Getpid(), syscall.SIGKILL)
 			time.Sleep(time.Hour)
